@@ -37,7 +37,8 @@ type c24Rig struct {
 	play     *clientPlaySessionHandler
 	protocol proto.Protocol
 	st       *state.Registry
-	sent     int // number of indexed messages sent so far
+	sent     int    // number of indexed messages sent so far
+	joining  string // backend whose JoinGame handling is in progress ("" = none)
 	// global delivery log across backends, in real order
 	log []c24Delivery
 }
@@ -108,6 +109,13 @@ func (r *c24Rig) newBackend(n string, st *state.Registry) {
 			r.log = append(r.log, c24Delivery{n, int(pm.Data[0])<<8 | int(pm.Data[1])})
 		}
 	}
+	// A write the proxy attempts on a backend connection that the server switch closed concurrently is a
+	// delivery attempt to the departing backend, not a queueing fault: it counts as that message's delivery.
+	bc.onClosedWrite = func(c *g7Conn, w g7Write) {
+		if pm, ok := w.Pkt.(*plugin.Message); ok && (pm.Channel == c24Chan || pm.Channel == c24RegChan) && len(pm.Data) >= 2 {
+			r.log = append(r.log, c24Delivery{n + "(closed)", int(pm.Data[0])<<8 | int(pm.Data[1])})
+		}
+	}
 	r.backends[n] = bc
 	sc := newServerConnection(srv, nil, r.player)
 	sc.connection = bc
@@ -149,23 +157,46 @@ func (r *c24Rig) fmlHandshake() {
 
 // join: what backendTransitionSessionHandler.handleJoinGame does around handleBackendJoinGame.
 func (r *c24Rig) join(n string) error {
+	r.beginJoin(n)
+	return r.endJoin()
+}
+
+// beginJoin: a fresh connection to n is in flight and its JoinGame handling has started: the connected
+// server is cleared and the old backend connection closed (first half of handleJoinGame).
+func (r *c24Rig) beginJoin(n string) {
 	// a connection attempt always runs over a fresh serverConnection / backend connection
 	r.newBackend(n, state.Play)
 	dest := r.scs[n]
 	dest.connPhase = phase.UnknownBackendPhase
+	r.joining = n
 	r.player.mu.Lock()
+	r.player.connInFlight = dest
 	existing := r.player.connectedServer_
 	r.player.connectedServer_ = nil
 	r.player.mu.Unlock()
 	if existing != nil {
 		existing.disconnect()
 	}
+}
+
+// endJoin: second half of handleJoinGame: handleBackendJoinGame on the client's play handler, then the
+// destination becomes the connected server.
+func (r *c24Rig) endJoin() error {
+	dest := r.scs[r.joining]
+	r.joining = ""
 	jg := c24JoinGame()
 	if err := r.play.handleBackendJoinGame(c24JoinCtx(r, jg), jg, dest); err != nil {
 		return err
 	}
 	r.player.setConnectedServer(dest)
 	return nil
+}
+
+// hasLiveBackend: the player has a connected server whose connection is open (the only situation in which
+// the play handler accepts ordinary plugin messages at all).
+func (r *c24Rig) hasLiveBackend() bool {
+	sc := r.player.connectedServer()
+	return sc != nil && sc.conn() != nil
 }
 
 func strPtr(s string) *string { return &s }
@@ -231,7 +262,11 @@ func c24ConfigOps() []c24Op {
 	return []c24Op{"msg", "regmsg", "readyA", "switchB", "readyB"}
 }
 func c24PlayOps() []c24Op {
-	return []c24Op{"msg", "regmsg", "reset", "fml", "flush", "joinB", "joinA"}
+	// joinB/joinA = the whole JoinGame handling in one step; beginB .. endB = the same split where
+	// backendTransitionSessionHandler.handleJoinGame has cleared the connected server (and closed the old
+	// backend) but handleBackendJoinGame has not run yet: the player has NO connected backend, B is in flight.
+	// backendgone = the connected backend's connection is closed while it stays the connected server.
+	return []c24Op{"msg", "regmsg", "reset", "fml", "flush", "joinB", "beginB", "endB", "backendgone", "joinA"}
 }
 
 type c24State struct {
@@ -248,6 +283,7 @@ func c24Run(mode string, h []c24Op) bfs.Outcome {
 	}
 	for step, op := range h {
 		before := len(r.log)
+		live := mode != "play" || r.hasLiveBackend() // before the step
 		var err error
 		var perr any
 		panicked, pv := vrt.Catch(func() {
@@ -272,6 +308,12 @@ func c24Run(mode string, h []c24Op) bfs.Outcome {
 				err = r.join("A")
 			case "joinB":
 				err = r.join("B")
+			case "beginB":
+				r.beginJoin("B")
+			case "endB":
+				err = r.endJoin()
+			case "backendgone":
+				r.player.connectedServer().disconnect()
 			}
 		})
 		if panicked {
@@ -289,7 +331,11 @@ func c24Run(mode string, h []c24Op) bfs.Outcome {
 		// model bookkeeping: what must be waiting in the proxy
 		switch op {
 		case "msg", "regmsg":
-			m.pending = append(m.pending, r.sent)
+			// play phase: without a connected, open backend the handler discards ordinary plugin messages by
+			// design (as Velocity does) - those are outside the statement
+			if live {
+				m.pending = append(m.pending, r.sent)
+			}
 		case "switchB":
 			m.target = "B"
 		}
@@ -322,24 +368,57 @@ func c24Run(mode string, h []c24Op) bfs.Outcome {
 			if len(m.pending) != 0 {
 				return fail("not-delivered-when-ready", "step %d (%s): backend %s is ready, message(s) %v were not delivered", step, op, m.target, m.pending)
 			}
-		case mode == "play" && (op == "joinA" || op == "joinB" || op == "flush"):
+		case mode == "play" && (op == "joinA" || op == "joinB" || op == "endB" || (op == "flush" && live)):
 			if len(m.pending) != 0 {
 				return fail("not-drained", "step %d (%s): messages %v sent before are still undelivered", step, op, m.pending)
 			}
 		}
-		if n, b := r.queueLen(); n > maxQueuedLoginPluginMessages || b > maxQueuedLoginPluginMessageBytes {
+		n, b := r.queueLen()
+		if n > maxQueuedLoginPluginMessages || b > maxQueuedLoginPluginMessageBytes {
 			return fail("unbounded", "step %d: queue holds %d messages / %d bytes", step, n, b)
+		}
+		// every message that is neither delivered nor discarded by an overflow must still be held
+		if len(m.pending) > n && !r.disconnected() {
+			return fail("lost", "step %d (%s): message(s) %v were sent to a ready-to-be backend, are not delivered anywhere and the proxy no longer holds them (queue length %d)", step, op, m.pending, n)
 		}
 	}
 	// state key: history-determined observable state
 	n, _ := r.queueLen()
-	key := fmt.Sprintf("%v|q=%d|pend=%v|target=%s|ready=%v|A=%d|B=%d|phase=%T", r.log, n, m.pending, m.target, m.ready, len(r.backends["A"].writes), len(r.backends["B"].writes), r.player.phase())
+	conn := "-"
+	if sc := r.player.connectedServer(); sc != nil {
+		conn = sc.server.info.Name()
+		if sc.conn() == nil {
+			conn += "(closed)"
+		}
+	}
+	key := fmt.Sprintf("%v|q=%d|pend=%v|target=%s|ready=%v|A=%d|B=%d|phase=%T|conn=%s|joining=%s", r.log, n, m.pending, m.target, m.ready, len(r.backends["A"].writes), len(r.backends["B"].writes), r.player.phase(), conn, r.joining)
 	return bfs.Outcome{Key: key, Obs: fmt.Sprint(r.log)}
 }
 
 func c24Enabled(mode string) func(h []c24Op, op c24Op) bool {
 	return func(h []c24Op, op c24Op) bool {
 		if mode != "config" {
+			joining, gone := false, false
+			for _, o := range h {
+				switch o {
+				case "beginB":
+					joining = true
+				case "endB":
+					joining, gone = false, false
+				case "joinA", "joinB":
+					gone = false
+				case "backendgone":
+					gone = true
+				}
+			}
+			switch op {
+			case "beginB", "joinA", "joinB":
+				return !joining
+			case "endB":
+				return joining
+			case "backendgone":
+				return !joining && !gone
+			}
 			return true
 		}
 		target := "A"
